@@ -5,7 +5,7 @@ From Coq Require Import String List.
 From C16 Require Import ObjModel SelfContained Refcount RaceFree Examples.
 From C16.gen Require Import Desc Decide.
 
-(* C16: for every history of construct / copy / assign / use / destroy over any number of objects, the result of a use of a
+(* C16: for every history of construct / copy / assign / use / destroy / re-parameterise in place (Mutate) over any number of objects, the result of a use of a
    method accepted by method_sc_b is  run n (init p) st' a : a function of the lineage's construction parameters p, the
    operands a and the documented excluded globals only *)
 Theorem C16_self_contained : forall val param arg res d init dflt junk run eff_own eff_stat,
@@ -15,6 +15,8 @@ Theorem C16_self_contained : forall val param arg res d init dflt junk run eff_o
   (forall md, In md (cd_methods d) -> m_const md = true -> forall s st a x,
       existsb (writes_member_b x) (m_effects md) = false -> eff_own (m_name md) s st a x = s x) ->
   (forall p x mp, cd_copy d = Some mp -> lookup x mp = Some SrcDefault -> init p x = dflt x) ->
+  (forall md, In md (cd_methods d) -> m_mutator md = true -> mutator_ok_b d md = true) ->
+  (forall p p' x, mem x (cd_params d) = false -> init p x = init p' x) ->
   SelfContained_stmt val param arg res d init dflt junk run eff_own eff_stat.
 Proof. exact self_contained. Qed.
 Print Assumptions C16_self_contained.
@@ -26,6 +28,8 @@ Theorem C16_history_independent : forall val param arg res d init dflt junk run 
   (forall md, In md (cd_methods d) -> m_const md = true -> forall s st a x,
       existsb (writes_member_b x) (m_effects md) = false -> eff_own (m_name md) s st a x = s x) ->
   (forall p x mp, cd_copy d = Some mp -> lookup x mp = Some SrcDefault -> init p x = dflt x) ->
+  (forall md, In md (cd_methods d) -> m_mutator md = true -> mutator_ok_b d md = true) ->
+  (forall p p' x, mem x (cd_params d) = false -> init p x = init p' x) ->
   HistoryIndependent_stmt val param arg res d init dflt junk run eff_own eff_stat.
 Proof. exact history_independent. Qed.
 Print Assumptions C16_history_independent.
@@ -69,6 +73,8 @@ Print Assumptions C18_shared_write_refuted.
 (* the decisions on the description of the current source *)
 Theorem C16_decided_self_contained : Decide_sc_stmt.                   Proof. exact decide_sc. Qed.
 Print Assumptions C16_decided_self_contained.
+Theorem C16_decided_mutators : Decide_mut_stmt.                        Proof. exact decide_mut. Qed.
+Print Assumptions C16_decided_mutators.
 Theorem C16_decided_refcount : Decide_rc_stmt.                         Proof. exact decide_rc. Qed.
 Print Assumptions C16_decided_refcount.
 Theorem C18_decided_race_free : Decide_rf_stmt.                        Proof. exact decide_rf. Qed.
